@@ -150,6 +150,8 @@ def check_add_extremes(segs, closed):
                 continue
             prev = t
             local = (F(t) - done) / (1 - done)
+            if done > 0 and local < F(1, 10 ** 8):
+                continue          # the same point again up to rounding (x- and y-extreme coincide): splitAtPoints skips cuts closer than 1e-8
             a, b = oc.casteljau_split(cur, local)
             exp.append(a)
             owner.append(s)
@@ -183,7 +185,13 @@ def check_add_extremes(segs, closed):
 
 def run_one(kind, inp):
     if kind == "seg":
-        return check_extremes([tuple(p) for p in inp["pts"]])
+        pts = [tuple(p) for p in inp["pts"]]
+        r = check_extremes(pts)
+        if r is None and len(pts) > 2:
+            r = check_add_extremes([pts], False)       # the same segment as a one-segment path: cut at its extremes
+            if r == "skip":
+                r = None
+        return r
     return check_add_extremes([[tuple(p) for p in s] for s in inp["segs"]], inp["closed"])
 
 
@@ -201,7 +209,21 @@ def search(ctx, budget):
         else:
             order = 2 + i % 3
             fam = ["int", "grid", "arch", "elevated", "dyadic", "float", "collinear", "coincident", "arch", "double-root"][(i // 3) % 10]
-            if fam == "double-root":
+            if fam == "double-root" and rng.random() < 0.5:
+                # cusp cubic: x' and y' share a root (the same cut parameter twice), with a further extreme later on the segment
+                r1 = rng.choice([0.25, 0.5, 0.375])
+                r2 = rng.choice([0.75, 0.875, 0.625])
+                kx, ky = rng.choice([16.0, 32.0, -16.0]), rng.choice([16.0, -32.0, 8.0])
+                # x'(t) = kx (t - r1)(t - r2), y'(t) = ky (r1 - t): integrate to power basis, then to Bernstein control values
+                cx = [0.0, kx * r1 * r2, -kx * (r1 + r2) / 2, kx / 3]
+                cy = [0.0, ky * r1, -ky / 2, 0.0]
+                bez = lambda c: [c[0], c[0] + c[1] / 3, c[0] + 2 * c[1] / 3 + c[2] / 3, c[0] + c[1] + c[2] + c[3]]
+                x0, y0 = float(rng.randint(-30, 30)), float(rng.randint(-30, 30))
+                pts = [(x0 + 48 * a, y0 + 48 * b) for a, b in zip(bez(cx), bez(cy))]
+                if rng.random() < 0.5:
+                    pts = [(b, a) for a, b in pts]
+                inp = {"pts": pts}
+            elif fam == "double-root":
                 # a cubic whose x- (or y-) derivative touches zero without changing sign: control differences d0, d1, d2 with d1^2 = d0 d2,
                 # d0 and d2 of one sign, d1 of the other (exact in floats for small integers)
                 u, v, k = rng.randint(1, 4), rng.randint(1, 4), rng.choice([1, 1, 2, 3])
